@@ -239,6 +239,29 @@ def check(ctx):
                     C.issue('save-load-raised', 'oracle', dict(how='saveload-bare', cfg=c), error=type(ex).__name__ + ': ' + str(ex)[:80])
             finally:
                 os.chdir(cwd)
+            # the same unchanged file loaded twice, the first loaded history extended in between: the second load
+            # must again be exactly what was saved (a loaded history shares nothing with later loads)
+            try:
+                p3 = os.path.join(scratch, 'twice.pkl')
+                h.save(p3)
+                ha = L['History']()
+                ha.load(p3)
+                kw2 = {}
+                if hasattr(ha, 'agents'):
+                    kw2['agents'] = rec['space'].agents
+                kw2['best_agent'] = rec['space'].best_agent
+                ha.dump(**kw2)
+                for kk_, vv_ in vars(ha).items():
+                    if isinstance(vv_, list) and vv_ and kk_ not in kw2:
+                        vv_.append(vv_[-1])
+                hb = L['History']()
+                hb.load(p3)
+                os.remove(p3)
+                if set(vars(hb)) != set(vars(h)) or any(not same_attr(vars(h)[kk], vars(hb)[kk]) for kk in vars(h)):
+                    C.issue('value-differs-after-load', 'oracle', dict(how='saveload-twice', cfg=c))
+                C.case(key=('saveload-twice', c['kind'], c['store_best_only']), nontrivial=True, kind='saveload-twice')
+            except Exception as ex:
+                C.issue('save-load-raised', 'oracle', dict(how='saveload-twice', cfg=c), error=type(ex).__name__ + ': ' + str(ex)[:80])
             if prev_hist is not None and hasattr(prev_hist, 'best_agent'):
                 # `prev_hist` has answered get() already; load this run into it and ask again
                 p2 = os.path.join(scratch, 'reuse.pkl')
